@@ -9,13 +9,17 @@
 //	ZoomInOut         an ID zoomed in by (dh, dv) and the result zoomed out again
 //	MergeDescendants  the complete descendants of an ID, shuffled / repeated by a seed, merged at the ID's own zooms
 //
-// Bounds: zoom-in results are limited to 4096 IDs, and the overlap function is called only on zoom pairs with 2|dh|+|dv| <= 18 (a wrong
-// choice of the common zoom inside it then stays cheap); a call beyond the bounds is not executed (marker), so shrinking cannot explode.
+// Bounds: zoom-in results are limited to 4096 IDs; a call beyond the bound is not executed (marker; the dispatch entry re-computes the
+// estimate and answers class "skipped" only then), so shrinking cannot explode. The overlap function is called on EVERY zoom pair (it only
+// zooms out; every call runs under the runner's timeout and the process under a memory limit).
 package c09
 
 import (
 	"math"
 	"math/rand"
+	"sort"
+	"strconv"
+	"strings"
 
 	"github.com/trajectoryjp/spatial_id_go/v4/common/object"
 	"github.com/trajectoryjp/spatial_id_go/v4/detector"
@@ -43,9 +47,6 @@ func pos64(a int64) int64 {
 	}
 	return a
 }
-
-// ovlCalled mirrors DC09.ovl_called (all four zooms are in 0..35 when it is used).
-func ovlCalled(h1, v1, h2, v2 int64) bool { return 2*abs64(h1-h2)+abs64(v1-v2) <= 18 }
 
 func pointID(p *object.Point, h, v int64) (string, error) {
 	ids, err := shape.GetExtendedSpatialIdsOnPoints([]*object.Point{p}, h, v)
@@ -83,18 +84,52 @@ func fnNesting() *run.Fn {
 			return w.Err{V: w.L(w.S(id1), w.S(id2))}
 		}
 		chg, e3 := integrate.ChangeExtendedSpatialIdsZoom([]string{id1}, h2, v2)
-		var ovl w.Val = w.Nil{}
-		var e4 error
-		if all && ovlCalled(h1, v1, h2, v2) {
-			b, e := detector.CheckExtendedSpatialIdsOverlap(id1, id2)
-			ovl, e4 = w.B(b), e
-		}
-		res := w.L(w.S(id1), w.S(id2), strs(chg), ovl)
+		b, e4 := detector.CheckExtendedSpatialIdsOverlap(id1, id2)
+		res := w.L(w.S(id1), w.S(id2), strs(modelOrder(chg)), w.B(b))
 		if e3 != nil || e4 != nil {
 			return w.Err{V: res}
 		}
 		return res
 	}}
+}
+
+// modelOrder sorts a zoom-change result (Go map order after common.Unique) into the order of the model's loops: y, then x, then f.
+// Strings that are not five integers are left where they are (the comparison with the model then fails).
+func modelOrder(l []string) []string {
+	type key struct{ y, x, f int64 }
+	ks := make([]key, len(l))
+	for i, s := range l {
+		fs := strings.Split(s, "/")
+		if len(fs) != 5 {
+			return l
+		}
+		x, e1 := strconv.ParseInt(fs[1], 10, 64)
+		y, e2 := strconv.ParseInt(fs[2], 10, 64)
+		f, e3 := strconv.ParseInt(fs[4], 10, 64)
+		if e1 != nil || e2 != nil || e3 != nil {
+			return l
+		}
+		ks[i] = key{y, x, f}
+	}
+	idx := make([]int, len(l))
+	for i := range idx {
+		idx[i] = i
+	}
+	sort.SliceStable(idx, func(a, b int) bool {
+		ka, kb := ks[idx[a]], ks[idx[b]]
+		if ka.y != kb.y {
+			return ka.y < kb.y
+		}
+		if ka.x != kb.x {
+			return ka.x < kb.x
+		}
+		return ka.f < kb.f
+	})
+	out := make([]string, len(l))
+	for i, j := range idx {
+		out[i] = l[j]
+	}
+	return out
 }
 
 func strs(l []string) w.Val {
@@ -127,9 +162,8 @@ func fnLadder() *run.Fn {
 		for _, pr := range w.AsList(a[2]) {
 			l := w.AsList(pr)
 			ia, ib := w.AsInt(l[0]), w.AsInt(l[1])
-			if ia < 0 || ib < 0 || ia >= int64(len(ids)) || ib >= int64(len(ids)) ||
-				!ovlCalled(zooms[ia].h, zooms[ia].v, zooms[ib].h, zooms[ib].v) {
-				bools = append(bools, w.Nil{})
+			if ia < 0 || ib < 0 || ia >= int64(len(ids)) || ib >= int64(len(ids)) {
+				bools = append(bools, w.Nil{}) // not a pair of rungs (only a shrinker can produce it): refused by the dispatch entry
 				continue
 			}
 			b, err := detector.CheckExtendedSpatialIdsOverlap(ids[ia], ids[ib])
@@ -161,10 +195,10 @@ func fnInOut() *run.Fn {
 			return w.Err{V: w.Nil{}}
 		}
 		if perr != nil { // object.NewExtendedSpatialID refused the ID but the zoom change accepted it: reported as "no error"
-			return w.L(w.I(int64(len(mid))), w.List{})
+			return w.L(strs(modelOrder(mid)), w.List{})
 		}
 		back, e2 := integrate.ChangeExtendedSpatialIdsZoom(mid, h, v)
-		return w.WithErr(w.L(w.I(int64(len(mid))), strs(back)), e2)
+		return w.WithErr(w.L(strs(modelOrder(mid)), strs(back)), e2)
 	}}
 }
 
@@ -230,11 +264,14 @@ func altFor(g *Gen, v int64) (float64, string) {
 			k := g.Int63n(n) + 1
 			if g.Chance(0.4) {
 				k = g.Pick(1, 2, n)
+				if k > n {
+					k = n
+				}
 			}
 			return -float64(k) * cell, "alt-neg-multiple"
 		case 2: // a negative layer boundary +- ulps
 			n := int64(1) << uint(v)
-			return Ulp(-float64(g.Int63n(n)+1)*cell, g.Intn(5)-2), "alt-neg-boundary"
+			return math.Max(-33554432, Ulp(-float64(g.Int63n(n)+1)*cell, g.Intn(5)-2)), "alt-neg-boundary"
 		case 3: // inside the first layers below ground
 			return -g.R.Float64() * math.Min(33554432, cell*float64(1+g.Intn(4))), "alt-neg-first-layers"
 		case 4:
@@ -295,6 +332,10 @@ func zoomPair(g *Gen) (h1, v1, h2, v2 int64, kind string) {
 	case k < 80: // h1 >= h2 and v1 < v2: the vertical zoom is raised by the change (at most 2^8 results)
 		h2, v1 = g.Zoom(), g.Zoom()
 		h1 = h2 + g.Int63n(6)
+		if g.Chance(0.5) { // any drop on the lowered axis
+			h1 = g.Zoom()
+			h2 = g.ZoomBelow(h1)
+		}
 		v2 = v1 + 1 + g.Int63n(8)
 		if h1 > 35 {
 			h1 = 35
@@ -307,6 +348,10 @@ func zoomPair(g *Gen) (h1, v1, h2, v2 int64, kind string) {
 		h1, v2 = g.Zoom(), g.Zoom()
 		h2 = h1 + 1 + g.Int63n(4)
 		v1 = v2 + g.Int63n(9)
+		if g.Chance(0.5) { // any drop on the lowered axis
+			v1 = g.Zoom()
+			v2 = g.ZoomBelow(v1)
+		}
 		if h2 > 35 {
 			h1, h2 = 35-(h2-h1), 35
 		}
@@ -355,6 +400,26 @@ func idFor(g *Gen, h, v int64) (string, string) {
 		return EID(h, g.HIndex(h), g.HIndex(h), v, f), "id-negative-f"
 	}
 	return EID(h, g.HIndex(h), g.HIndex(h), v, f), "id-nonneg-f"
+}
+
+// respell: in 5 % of the cases an accepted non-canonical spelling of the same ID ("+3", "007", "-0")
+func respell(g *Gen, id, tag string) (string, string) {
+	if !g.Chance(0.05) {
+		return id, tag
+	}
+	fs := strings.Split(id, "/")
+	k := g.Intn(len(fs))
+	switch {
+	case fs[k] == "0" && g.Chance(0.5):
+		fs[k] = "-0"
+	case !strings.HasPrefix(fs[k], "-") && g.Chance(0.5):
+		fs[k] = "+" + fs[k]
+	case strings.HasPrefix(fs[k], "-"):
+		fs[k] = "-00" + fs[k][1:]
+	default:
+		fs[k] = "00" + fs[k]
+	}
+	return strings.Join(fs, "/"), tag + "+respelled"
 }
 
 func zoomTags(kind string, h1, v1, h2, v2 int64) []string {
@@ -444,7 +509,7 @@ func init() {
 					nesting(pv, h1, v1, h2, v3, append(tags, "sequence-other-vzoom")...)
 					i += 2
 				}
-			case kind < 520: // one point at a ladder of zoom pairs
+			case kind < 600: // one point at a ladder of zoom pairs
 				k := 3 + g.Intn(5)
 				zs := make(w.List, k)
 				hs, vs := make([]int64, k), make([]int64, k)
@@ -488,11 +553,16 @@ func init() {
 			case kind < 760: // zoom in, then out
 				h, v := g.Zoom(), g.Zoom()
 				id, tag := idFor(g, h, v)
+				id, tag = respell(g, id, tag)
 				dh, dv := g.Int63n(4), g.Int63n(7)
-				if g.Chance(0.15) {
+				switch g.Intn(12) {
+				case 0: // one axis only, up to the 4096 cap
+					dh, dv = g.Int63n(7), 0
+				case 1:
+					dh, dv = 0, g.Int63n(13)
+				case 2, 3, 4:
 					dh = 0
-				}
-				if g.Chance(0.15) {
+				case 5, 6, 7:
 					dv = 0
 				}
 				H, V := h+dh, v+dv
@@ -520,7 +590,11 @@ func init() {
 			default: // merge the complete descendants
 				h, v := g.Zoom(), g.Zoom()
 				id, tag := idFor(g, h, v)
+				id, tag = respell(g, id, tag)
 				dh, dv := g.Int63n(3), g.Int63n(4)
+				if g.Chance(0.08) { // up to the bound of the dispatch entry (512 descendants)
+					dh, dv = g.Int63n(4), g.Int63n(5)
+				}
 				if h+dh > 35 {
 					dh = 35 - h
 				}
